@@ -43,6 +43,11 @@ def build_cases(ctx, T, rounds):
                         vid = g.fresh()
                         defs.append(instgen.Inst(g.opv["Undef"], "Undef", tid, vid, []))
                         newtypes[vid] = t
+                    if rnd_i % 2 == 1:
+                        # every other round the selector values are defined where real code defines them: inside a function body
+                        pre.append(instgen.Inst(g.opv["Function"], "Function", next(iter(types)), g.fresh(),
+                                                [instgen.Op("w", g.vix["FunctionControl"], 0), instgen.Op("w", g.vix["IdRef"], 3)]))
+                        pre.append(instgen.Inst(g.opv["Label"], "Label", None, g.fresh(), []))
                     pre += defs
                     types = newtypes
             for inst in g.all_shapes(entry, types=types):
